@@ -315,6 +315,12 @@ type Explorer struct {
 	KeyFn   func() string
 	Pruned  int
 	visited map[string]int
+	// ReplayEvery > 0: every ReplayEvery-th execution is run a second time from its recorded choice
+	// sequence and must reproduce the same schedule (proof that the harness owns the nondeterminism)
+	ReplayEvery int
+	Cleanup     func() // called after a replay run (Check is not), to release what Body opened
+	Replays     int
+	ReplayDiffs []string
 }
 
 func preemptionCost(p Point, alt int) int {
@@ -342,6 +348,19 @@ func (e *Explorer) explore(prefix []int) {
 	e.Check(x)
 	if x.Hung != "" || x.Diverged != "" {
 		return
+	}
+	if e.ReplayEvery > 0 && e.Executions%e.ReplayEvery == 0 {
+		y := RunKeyed(x.Choices(), e.MaxSteps, e.Body(), e.KeyFn)
+		e.Replays++
+		if e.Cleanup != nil {
+			e.Cleanup()
+		}
+		a, b := strings.Join(x.Schedule(), " > "), strings.Join(y.Schedule(), " > ")
+		if a != b || y.Diverged != "" || y.Deadlock != x.Deadlock || len(y.Panics) != len(x.Panics) {
+			if len(e.ReplayDiffs) < 5 {
+				e.ReplayDiffs = append(e.ReplayDiffs, fmt.Sprintf("choices %v: first run %q, replay %q (diverged=%q)", x.Choices(), a, b, y.Diverged))
+			}
+		}
 	}
 	// preemptions used by the prefix
 	used := 0
